@@ -7,6 +7,11 @@
 //	flatten         partial flattenings of a tree into dotted keys (PathSep) equal the nested tree
 //	duplicates      a setting defined twice through different spellings is ErrDuplicateKey in every
 //	                insertion order; a container spelled twice with disjoint leaves merges
+//	option-history  one Go value (the same types) normalised under several option sets in sequence
+//
+// The options of NewFrom (PathSep with any separator, EnableNumKeys, MaxIdx,
+// StructTag, EscapePath) are part of every case; what an input means under
+// them is computed by the model in flat_test.go.
 package c05
 
 import (
@@ -20,7 +25,6 @@ import (
 
 	"verif/harness/internal/canon"
 	"verif/harness/internal/gen"
-	"verif/harness/internal/model"
 	"verif/harness/internal/runlog"
 	"verif/harness/internal/uc"
 )
@@ -109,40 +113,179 @@ func newFrom(v interface{}, opts []ucfg.Option) (c *ucfg.Config, err error) {
 }
 
 // ---------------------------------------------------------------------------
+// what an input has to normalise to
+
+// expectation is the model's reading of an input under an option set.
+type expectation struct {
+	o       OptSet
+	m       *analysis
+	want    interface{}
+	wantStr string
+	// EscapePath: whether the brackets stay part of the name is not stated; if
+	// bracketed keys occur, alt is the reading without them and either is accepted
+	alt    *analysis
+	altStr string
+}
+
+func expectFor(f *gen.Tree, o OptSet) *expectation {
+	e := &expectation{o: o, m: analyse(f, o)}
+	e.want = e.m.root.reify()
+	e.wantStr = o.show(e.want)
+	if e.m.escapedKeys > 0 {
+		e.alt = analyseWith(f, o, true)
+		e.altStr = o.show(e.alt.root.reify())
+	}
+	return e
+}
+
+func (e *expectation) mustFail() bool {
+	return e.m.mustFail && (e.alt == nil || e.alt.mustFail)
+}
+
+func (e *expectation) mayFail() bool {
+	return e.m.mustFail || e.m.ambiguous || (e.alt != nil && (e.alt.mustFail || e.alt.ambiguous))
+}
+
+// comparable reports whether the value of the result is decided.
+func (e *expectation) comparable() bool {
+	return !e.m.ambiguous && !e.m.hazard && (e.alt == nil || !e.alt.ambiguous)
+}
+
+// exact reports whether the stored tree is decided as well (compared through the hook).
+func (e *expectation) exact() bool { return e.comparable() && e.alt == nil }
+
+// verdict checks the outcome of a normalisation against the model. It returns
+// the generic view if there is one to look at further.
+func (e *expectation) verdict(desc fmt.Stringer, cfg *ucfg.Config, err error) (got interface{}, more bool, fail error) {
+	m := e.m
+	if err != nil {
+		reason, typed := reasonOf(err)
+		if !typed {
+			return nil, false, fmt.Errorf("%s: failed with an error that is no ucfg.Error: %v", desc, err)
+		}
+		switch {
+		case !e.mayFail():
+			return nil, false, fmt.Errorf("%s: no setting is defined twice, but the input was rejected: %v\n expected %s", desc, err, e.wantStr)
+		case reason == ucfg.ErrDuplicateKey:
+		case reason == ucfg.ErrExpectedObject && m.throughPrim:
+			// a dotted key that runs through a primitive defined by another key of the same object
+		default:
+			return nil, false, fmt.Errorf("%s: a setting is defined twice (%s), the error must be ErrDuplicateKey but is %v: %v", desc, m.conflict, reason, err)
+		}
+		return nil, false, nil
+	}
+	opts := e.o.options()
+	if e.mustFail() {
+		got, _ := uc.Dump(cfg, opts...)
+		return nil, false, fmt.Errorf("%s: a setting is defined twice (%s) but the input was accepted\n result %s", desc, m.conflict, e.o.show(got))
+	}
+	got, err = uc.Dump(cfg, opts...)
+	if err != nil {
+		return nil, false, fmt.Errorf("%s: unpacking failed: %v", desc, err)
+	}
+	if !e.comparable() {
+		return got, false, nil
+	}
+	if s := e.o.show(got); s != e.wantStr && (e.alt == nil || s != e.altStr) {
+		return nil, false, fmt.Errorf("%s: the result does not equal the tree the input spells\n got  %s\n want %s", desc, s, e.wantStr)
+	}
+	return got, true, nil
+}
+
+func (e *expectation) classes(r *runlog.R) {
+	m := e.m
+	switch {
+	case e.mustFail():
+		r.Class("verdict: duplicate (" + m.conflict + ")")
+		r.ClassIf(m.throughPrim, "duplicate: a dotted key runs through a primitive (ErrExpectedObject accepted too)")
+		r.ClassIf(m.underShared, "duplicate: below a container that is given by two values")
+	case m.ambiguous:
+		r.Class("verdict: either (primitive vs nil/empty container)")
+	case !e.comparable():
+		r.Class("verdict: accepted, value not compared (names next to a list part that the generic view can not tell apart)")
+	default:
+		r.Class("verdict: equal to the nested tree")
+		r.ClassIf(m.shared > 0, "container assembled from >=2 spellings")
+		r.ClassIf(m.contTwice > 0, "container given by two values, disjoint leaves: merged")
+		r.ClassIf(m.dottedNextToNested > 0, "dotted edge next to a nested sibling")
+	}
+	r.ClassIf(m.dotted == 0, "no dotted key")
+	r.ClassIf(m.idxSegs > 0, "index segment in a dotted key")
+	r.ClassIf(m.maxSegs >= 3, "dotted key with >=3 segments")
+	r.ClassIf(m.sameKeyTwice > 0, "an object holds one key twice")
+	r.ClassIf(m.decoyKeys > 0, "key with separator-like characters that stays whole")
+	r.ClassIf(m.escapedKeys > 0, "bracketed key under EscapePath")
+	r.ClassIf(m.numNames > 0, "integer literal that is a name under the options")
+}
+
+func usedClasses(r *runlog.R, used map[string]int) {
+	labels := make([]string, 0, len(used))
+	for k := range used {
+		labels = append(labels, k)
+	}
+	sort.Strings(labels)
+	for _, k := range labels {
+		switch k {
+		case "narrow int", "float32", "named primitive", "pointer to primitive", "nil *int", "map[string]interface{}", "[]interface{}":
+		default:
+			r.Class("repr:" + k)
+		}
+	}
+}
+
+// ---------------------------------------------------------------------------
 // (a) representations, round trip, idempotence
 
 // ReprCase is a data tree with the representation choices of the first
 // variant in the R fields of T and further variants in Alts.
 type ReprCase struct {
-	T    *gen.Tree `json:"t"`
-	Alts [][]int   `json:"alts,omitempty"` // alternative representation choices, applied to the nodes of T in pre-order (cyclically)
-	Opt  int       `json:"opt,omitempty"`  // 0 no option, 1 PathSep("."), 2 EnableNumKeys(true)
+	T      *gen.Tree `json:"t"`
+	Alts   [][]int   `json:"alts,omitempty"`   // alternative representation choices, applied to the nodes of T in pre-order (cyclically)
+	Opt    int       `json:"opt,omitempty"`    // cases recorded before O existed: 0 no option, 1 PathSep("."), 2 EnableNumKeys(true)
+	O      *OptSet   `json:"o,omitempty"`      // the options
+	Scheme int       `json:"scheme,omitempty"` // names under the struct tags the options do not select
 }
 
-var reprKeys = [3][]string{
-	{"a", "b", "c", "d", "a", "b", "a.b", "c.d.e", "é", "x y", "", "0", "1"},
-	{"a", "b", "c", "d", "a", "b", "é", "x y", "A_1", "0", "1"},
-	{"a", "b", "c", "d", "a", "b", "a.b", "0", "1", "10", "007"},
-}
-
-func reprOpts(opt int) []ucfg.Option {
-	switch opt {
-	case 1:
-		return []ucfg.Option{ucfg.PathSep(".")}
-	case 2:
-		return []ucfg.Option{ucfg.EnableNumKeys(true)}
+func (c ReprCase) optset() OptSet {
+	if c.O != nil {
+		return *c.O
 	}
-	return nil
+	switch c.Opt {
+	case 1:
+		return OptSet{Sep: "."}
+	case 2:
+		return OptSet{NumKeys: true}
+	}
+	return OptSet{}
+}
+
+var reprBase = []string{"a", "b", "c", "d", "a", "b", "é", "x y", "A_1", "0", "1"}
+
+func reprKeys(o OptSet) []string {
+	keys := keysFor(o, reprBase)
+	if o.Sep == "" {
+		keys = append(keys, "a.b", "c.d.e", "")
+	}
+	if o.NumKeys {
+		keys = append(keys, "007", "10")
+	}
+	if o.Esc {
+		keys = append(keys, "[e"+o.Sep+"f]", "[g]", "[e"+o.Sep+"f]")
+	}
+	return keys
 }
 
 // drawReprs adds the representation bits the shared generator does not draw
-// (pointer levels, primitive variants).
+// (pointer levels, primitive variants, struct layouts).
 func drawReprs(t *rapid.T, tr *gen.Tree) {
 	var nodes []*gen.Tree
 	preorder(tr, &nodes)
 	for _, n := range nodes {
 		if n.IsCont() {
 			n.R = n.R%16 + 16*rapid.IntRange(0, 3).Draw(t, "ptr")
+			if n.K == "obj" && (n.R%8 == 2 || n.R%8 == 7) {
+				n.R += 64 * drawLayout(t)
+			}
 		} else {
 			n.R = rapid.IntRange(0, 63).Draw(t, "primrepr")
 		}
@@ -150,8 +293,9 @@ func drawReprs(t *rapid.T, tr *gen.Tree) {
 }
 
 func genRepr(t *rapid.T) ReprCase {
-	c := ReprCase{Opt: rapid.SampledFrom([]int{0, 0, 1, 2}).Draw(t, "opt")}
-	cfg := &gen.TreeCfg{Depth: runlog.Pick(3, 5), Width: runlog.Pick(4, 6), Keys: reprKeys[c.Opt], Strings: gen.HostileStrings, Reprs: true}
+	o := genOptSet(t, 2)
+	c := ReprCase{O: &o, Scheme: rapid.IntRange(0, nSchemes-1).Draw(t, "scheme")}
+	cfg := &gen.TreeCfg{Depth: runlog.Pick(3, 5), Width: runlog.Pick(4, 6), Keys: reprKeys(o), Strings: gen.HostileStrings, Reprs: true}
 	if rapid.IntRange(0, 4).Draw(t, "toplist") == 0 {
 		c.T = gen.GenList(t, cfg, cfg.Depth)
 	} else {
@@ -160,23 +304,32 @@ func genRepr(t *rapid.T) ReprCase {
 	drawReprs(t, c.T)
 	n := rapid.IntRange(1, 2).Draw(t, "nalts")
 	for i := 0; i < n; i++ {
-		c.Alts = append(c.Alts, rapid.SliceOfN(rapid.IntRange(0, 63), 1, 12).Draw(t, "alt"))
+		alt := rapid.SliceOfN(rapid.IntRange(0, 63), 1, 12).Draw(t, "alt")
+		for j, r := range alt {
+			if r%8 == 2 || r%8 == 7 {
+				alt[j] += 64 * drawLayout(t)
+			}
+		}
+		c.Alts = append(c.Alts, alt)
 	}
 	return c
 }
 
 // hasNilOrEmpty reports whether the tree contains nil values, empty
 // containers or keys that address the list part of a node.
-func hasNilOrEmpty(t *gen.Tree, idxKeys bool) bool {
+func hasNilOrEmpty(t *gen.Tree, o OptSet) bool {
 	found := false
 	t.Walk(nil, func(_ []string, n *gen.Tree) {
 		if n.K == "nil" || (n.IsCont() && len(n.Vals) == 0) {
 			found = true
 		}
-		if idxKeys && n.K == "obj" {
+		if n.K == "obj" {
 			for _, k := range n.Keys {
-				if isIndex(k) {
-					found = true
+				segs := o.split(k)
+				for _, s := range segs {
+					if _, ok := o.index(s, len(segs) > 1); ok {
+						found = true
+					}
 				}
 			}
 		}
@@ -185,20 +338,19 @@ func hasNilOrEmpty(t *gen.Tree, idxKeys bool) bool {
 }
 
 func runRepr(c ReprCase, r *runlog.R) error {
-	if c.T == nil || !c.T.IsCont() || c.Opt < 0 || c.Opt > 2 {
+	o := c.optset()
+	if c.T == nil || !c.T.IsCont() || !o.valid() || c.Scheme < 0 {
 		r.Discard()
 		return nil
 	}
-	opts := reprOpts(c.Opt)
-	want := c.T.Go()
-	// With numeric keys enabled every key is a name and the comparison is the
-	// plain canonical one. Otherwise integer-literal keys address the list part
-	// of their node and both sides are compared as (named part, list part).
-	equal, show := splitEqual, splitShow
-	if c.Opt == 2 {
-		equal, show = canon.EqualData, canon.Show
+	opts := o.options()
+	e := expectFor(c.T, o)
+	if e.m.unclear {
+		r.Discard()
+		return nil
 	}
-	strict := !hasNilOrEmpty(c.T, c.Opt != 2)
+	show := o.show
+	strict := e.exact() && !hasNilOrEmpty(c.T, o) && e.m.dotted == 0
 
 	variants := []*gen.Tree{c.T, withReprs(c.T, nil)}
 	for _, a := range c.Alts {
@@ -206,7 +358,7 @@ func runRepr(c ReprCase, r *runlog.R) error {
 	}
 	used := map[string]int{}
 	for vi, vt := range variants {
-		b := &builder{opts: opts, used: used, nilConts: true}
+		b := &builder{opts: opts, used: used, nilConts: true, primary: o.tagIdx(), scheme: c.Scheme, sep: o.Sep}
 		var src interface{}
 		err := uc.Safe("building the input", func() error {
 			var e error
@@ -216,51 +368,54 @@ func runRepr(c ReprCase, r *runlog.R) error {
 		if err != nil {
 			return fmt.Errorf("variant %d: building the representation failed: %v", vi, err)
 		}
+		desc := lazy(func() string {
+			return fmt.Sprintf("variant %d: NewFrom(%T) under %s of %s", vi, src, o, showOrdered(vt))
+		})
 		c1, err := newFrom(src, opts)
+		d1, more, fail := e.verdict(desc, c1, err)
+		if fail != nil {
+			return fail
+		}
 		if err != nil {
-			return fmt.Errorf("variant %d: NewFrom(%T) failed: %v\n tree %s", vi, src, err, canon.Show(want))
+			continue
 		}
-		d1, err := uc.Dump(c1, opts...)
-		if err != nil {
-			return fmt.Errorf("variant %d: unpacking failed: %v", vi, err)
-		}
-		if !equal(d1, want) {
-			return fmt.Errorf("variant %d (%T): the generic view differs from the data\n got  %s\n want %s", vi, src, show(d1), show(want))
-		}
-		if vi == 0 {
+		if vi == 0 && more {
 			// the same through an interface{}-typed struct field
 			var w struct {
-				V interface{} `config:"v"`
+				V interface{} `config:"v" json:"v" yaml:"v" alt:"v"`
 			}
 			cw, err := newFrom(map[string]interface{}{"v": src}, opts)
 			if err != nil {
-				return fmt.Errorf("NewFrom({v: %T}) failed: %v", src, err)
+				return fmt.Errorf("%s: NewFrom({v: input}) failed: %v", desc, err)
 			}
 			if err := uc.Safe("Unpack", func() error { return cw.Unpack(&w, opts...) }); err != nil {
-				return fmt.Errorf("unpacking into struct{V interface{}} failed: %v", err)
+				return fmt.Errorf("%s: unpacking into struct{V interface{}} failed: %v", desc, err)
 			}
-			if !equal(w.V, want) {
-				return fmt.Errorf("(%T) unpacked into an interface{} field: the generic view differs from the data\n got  %s\n want %s", src, show(w.V), show(want))
+			if s := show(w.V); s != e.wantStr && (e.alt == nil || s != e.altStr) {
+				return fmt.Errorf("%s: unpacked into an interface{} field: the generic view differs from the data\n got  %s\n want %s", desc, s, e.wantStr)
 			}
+		}
+		if !e.exact() {
+			continue
 		}
 		// idempotence: the unpacked result fed back in
 		c2, err := newFrom(d1, opts)
 		if err != nil {
-			return fmt.Errorf("variant %d: NewFrom(unpacked result) failed: %v\n data %s", vi, err, canon.Show(d1))
+			return fmt.Errorf("%s: NewFrom(unpacked result) failed: %v\n data %s", desc, err, canon.Show(d1))
 		}
 		d2, err := uc.Dump(c2, opts...)
 		if err != nil {
-			return fmt.Errorf("variant %d: unpacking the second config failed: %v", vi, err)
+			return fmt.Errorf("%s: unpacking the second config failed: %v", desc, err)
 		}
-		if !equal(d2, d1) {
-			return fmt.Errorf("variant %d (%T): feeding the unpacked result back in changes the generic view\n first  %s\n second %s", vi, src, show(d1), show(d2))
+		if !o.equal(d2, d1) {
+			return fmt.Errorf("%s: feeding the unpacked result back in changes the generic view\n first  %s\n second %s", desc, show(d1), show(d2))
 		}
-		if s1, s2 := snapString(c1, false, false), snapString(c2, false, false); s1 != s2 {
-			return fmt.Errorf("variant %d (%T): feeding the unpacked result back in yields a different config (nil = absent = empty)\n--- first\n%s--- second\n%s", vi, src, s1, s2)
+		if s1, s2 := snapString(c1, false, e.m.dotted > 0), snapString(c2, false, e.m.dotted > 0); s1 != s2 {
+			return fmt.Errorf("%s: feeding the unpacked result back in yields a different config (nil = absent = empty)\n--- first\n%s--- second\n%s", desc, s1, s2)
 		}
 		if strict {
 			if s1, s2 := snapString(c1, true, false), snapString(c2, true, false); s1 != s2 {
-				return fmt.Errorf("variant %d (%T): feeding the unpacked result back in yields a different config\n--- first\n%s--- second\n%s", vi, src, s1, s2)
+				return fmt.Errorf("%s: feeding the unpacked result back in yields a different config\n--- first\n%s--- second\n%s", desc, s1, s2)
 			}
 		}
 	}
@@ -275,7 +430,8 @@ func runRepr(c ReprCase, r *runlog.R) error {
 		r.Class("repr:" + k)
 	}
 	r.NonTrivialIf(kinds >= 2)
-	r.Class([]string{"opt:none", "opt:PathSep", "opt:EnableNumKeys"}[c.Opt])
+	o.classes(r.Class)
+	e.classes(r)
 	r.ClassIf(strict, "strict fingerprint compared")
 	r.ClassIf(c.T.K == "list", "top-level list")
 	return nil
@@ -283,26 +439,26 @@ func runRepr(c ReprCase, r *runlog.R) error {
 
 var subRepr = runlog.Register(&runlog.Sub[ReprCase]{
 	Name: "repr-roundtrip",
-	Rule: "random tree (hostile strings, nil, empty containers, keys incl. dotted/blank/empty/integer literals) built in 3-4 mixed Go representations (as drawn, generic, 1-2 alternative choice vectors: generic/interface-keyed/named/typed maps, slices, arrays, StructOf structs with tags and typed fields, 1-3 pointer levels, *Config, narrow and named primitive kinds, typed nils), under no option / PathSep / EnableNumKeys; for each: canon(Dump(NewFrom(repr))) == canon(T), NewFrom(Dump) has the same generic view and the same hook fingerprint (nil = absent = empty; byte-identical when T has no nil/empty/index keys). Non-trivial: at least 2 different container representations other than the generic map[string]interface{} / []interface{} occur in the case. Distinct: hash of the case.",
+	Rule: "an option set (no PathSep or one of 37 separators: single characters incl. regexp/printf metacharacters, multi-character and multi-byte ones; EnableNumKeys; MaxIdx 0/1/2/5/4000; StructTag with one of 4 tag names; EscapePath; options in either order) and a random tree (hostile strings, nil, empty containers, keys incl. blank/empty/integer literals, keys holding other separators or parts of the separator, under EscapePath bracketed keys holding the separator) built in 3-4 mixed Go representations (as drawn, generic, 1-2 alternative choice vectors: generic/interface-keyed/named/typed maps, slices, arrays, StructOf structs with typed fields whose keys are spread over tagged fields and inline members (maps of 4 kinds, struct, *struct, nested inline struct, interface{} field), every field tagged under 4 tag names of which only the selected one carries the keys, 1-3 pointer levels, *Config, narrow and named primitive kinds, typed nils); for each: the generic view of NewFrom(repr, options) equals the tree the model computes from T under the options (integer literals are list indices unless numeric keys are enabled or they exceed MaxIdx; brackets of an escaped key may stay or go), also through an interface{}-typed struct field; NewFrom(Dump) has the same generic view and the same hook fingerprint (nil = absent = empty; byte-identical when T has no nil/empty/index keys). Values are not compared when a node has names next to a list part under EnableNumKeys or beyond MaxIdx. Non-trivial: at least 2 different container representations other than the generic map[string]interface{} / []interface{} occur in the case. Distinct: hash of the case.",
 	Gen:  genRepr,
 	Run:  runRepr,
 })
 
-func TestReprRoundTrip(t *testing.T) { subRepr.Check(t, 60000, 2000000) }
+func TestReprRoundTrip(t *testing.T) { subRepr.Check(t, 50000, 2000000) }
 
 // ---------------------------------------------------------------------------
 // (b), (c) dotted spellings
 
 // FlatCase is an input written with dotted keys: F is given to NewFrom as it
-// is (object keys in insertion order, representation per node in R) under
-// PathSep("."). What it has to normalise to is computed by the model in
-// flat_test.go from F alone.
+// is (object keys in insertion order, representation per node in R) under the
+// options O. What it has to normalise to is computed by the model in
+// flat_test.go from F and O alone.
 type FlatCase struct {
 	F       *gen.Tree `json:"f"`
 	Planted string    `json:"planted,omitempty"` // what the generator planted (label for the class histogram only)
+	O       OptSet    `json:"o"`                 // the options; without a separator PathSep(".") applies (cases recorded before O existed)
+	Scheme  int       `json:"scheme,omitempty"`  // names under the struct tags the options do not select
 }
-
-var sepOpts = []ucfg.Option{ucfg.PathSep(".")}
 
 const maxOrders = 48
 
@@ -316,11 +472,12 @@ type ordering struct {
 // overlapping reports whether two keys of the object start with the same
 // segment, i.e. whether the object spells some container more than once. Only
 // then can the order in which its keys are processed matter.
-func overlapping(n *gen.Tree) bool {
+func overlapping(n *gen.Tree, o OptSet) bool {
 	seen := map[string]bool{}
 	for _, k := range n.Keys {
-		first := strings.SplitN(k, ".", 2)[0]
-		if i, ok := model.IndexOf(first, 1024); ok {
+		segs := o.split(k)
+		first := segs[0]
+		if i, ok := o.index(first, len(segs) > 1); ok {
 			first = fmt.Sprint(i)
 		}
 		if seen[first] {
@@ -335,10 +492,10 @@ func overlapping(n *gen.Tree) bool {
 // insertion order of the keys of each object that spells a container more
 // than once (one object permuted at a time, the others as stated): all n!
 // orders for objects of up to 4 keys, rotations and the reversal above that.
-func orderings(nodes []*gen.Tree) (out []ordering, capped bool) {
+func orderings(nodes []*gen.Tree, o OptSet) (out []ordering, capped bool) {
 	out = append(out, ordering{node: -1})
 	for ni, n := range nodes {
-		if n.K != "obj" || len(n.Keys) < 2 || !overlapping(n) {
+		if n.K != "obj" || len(n.Keys) < 2 || !overlapping(n, o) {
 			continue
 		}
 		for _, p := range perms(len(n.Keys)) {
@@ -410,7 +567,8 @@ func perms(n int) [][]int {
 	return append(out, rev)
 }
 
-// showOrdered renders a tree with its object keys in insertion order.
+// showOrdered renders a tree with its object keys in insertion order; objects
+// written as structs are marked with their layout.
 func showOrdered(t *gen.Tree) string {
 	var b strings.Builder
 	var rec func(t *gen.Tree)
@@ -426,6 +584,9 @@ func showOrdered(t *gen.Tree) string {
 				rec(t.Vals[i])
 			}
 			b.WriteString("}")
+			if asStruct(t) {
+				fmt.Fprintf(&b, "#struct(%s)", showLayout(t))
+			}
 		case "list":
 			b.WriteString("[")
 			for i, e := range t.Vals {
@@ -457,19 +618,27 @@ func reasonOf(err error) (error, bool) {
 }
 
 func runFlat(c FlatCase, r *runlog.R) error {
-	if c.F == nil || !c.F.IsCont() {
+	o := c.O
+	if o.Sep == "" {
+		o.Sep = "."
+	}
+	if c.F == nil || !c.F.IsCont() || !o.valid() || c.Scheme < 0 {
 		r.Discard()
 		return nil
 	}
-	m := analyse(c.F)
-	want := m.root.reify()
-	show := splitShow
-	wantStr := show(want)
+	opts := o.options()
+	e := expectFor(c.F, o)
+	m := e.m
+	if m.unclear {
+		r.Discard()
+		return nil
+	}
+	show := o.show
 
 	f := c.F.Clone()
 	var nodes []*gen.Tree
 	preorder(f, &nodes)
-	variants, capped := orderings(nodes)
+	variants, capped := orderings(nodes, o)
 	// The verdict of a defective implementation depends on the iteration order
 	// of Go maps, which differs from run to run even for one insertion order
 	// (for small maps the insertion order is the likely one); inputs with a
@@ -482,16 +651,16 @@ func runFlat(c FlatCase, r *runlog.R) error {
 		reps = 8 // a replay decides one case: make an order-dependent outcome show up with near certainty
 	}
 	used := map[string]int{}
-	for vi, o := range variants {
+	for vi, ord := range variants {
 		for rep := 0; rep < reps; rep++ {
-			b := &builder{opts: sepOpts, used: used}
+			b := &builder{opts: opts, used: used, primary: o.tagIdx(), scheme: c.Scheme, sep: o.Sep}
 			var src interface{}
 			var cfg *ucfg.Config
-			undo := o.apply(nodes)
+			undo := ord.apply(nodes)
 			desc := lazy(func() string {
-				undo := o.apply(nodes)
+				undo := ord.apply(nodes)
 				defer undo()
-				return fmt.Sprintf("insertion order %d of %s", vi, showOrdered(f))
+				return fmt.Sprintf("NewFrom under %s of insertion order %d of %s", o, vi, showOrdered(f))
 			})
 			err := uc.Safe("building the input", func() error {
 				var e error
@@ -500,62 +669,36 @@ func runFlat(c FlatCase, r *runlog.R) error {
 			})
 			undo()
 			if err == nil {
-				cfg, err = newFrom(src, sepOpts)
+				cfg, err = newFrom(src, opts)
 			}
-			if err != nil {
-				reason, typed := reasonOf(err)
-				if !typed {
-					return fmt.Errorf("%s: NewFrom failed with an error that is no ucfg.Error: %v", desc, err)
-				}
-				switch {
-				case !m.mustFail && !m.ambiguous:
-					return fmt.Errorf("%s: no setting is defined twice, but NewFrom failed: %v\n expected %s", desc, err, show(want))
-				case reason == ucfg.ErrDuplicateKey:
-				case reason == ucfg.ErrExpectedObject && m.throughPrim:
-					// a dotted key that runs through a primitive defined by another key of the same object
-				default:
-					return fmt.Errorf("%s: a setting is defined twice (%s), the error must be ErrDuplicateKey but is %v: %v", desc, m.conflict, reason, err)
-				}
-				continue
+			got, more, fail := e.verdict(desc, cfg, err)
+			if fail != nil {
+				return fail
 			}
-			if m.mustFail {
-				got, _ := uc.Dump(cfg, sepOpts...)
-				return fmt.Errorf("%s: a setting is defined twice (%s) but NewFrom succeeded\n result %s", desc, m.conflict, show(got))
-			}
-			got, err := uc.Dump(cfg, sepOpts...)
-			if err != nil {
-				return fmt.Errorf("%s: unpacking failed: %v", desc, err)
-			}
-			if m.ambiguous {
-				continue
-			}
-			if show(got) != wantStr {
-				return fmt.Errorf("%s: the dotted spelling does not equal the nested tree\n got  %s\n want %s", desc, show(got), wantStr)
-			}
-			if vi > 0 {
+			if !more || vi > 0 || !e.exact() {
 				continue
 			}
 			// the nested spelling, built from the model's result, gives the same config
 			nested := ucfg.New()
-			if want != nil {
-				nested, err = newFrom(want, sepOpts)
+			if e.want != nil {
+				nested, err = newFrom(e.want, opts)
 			}
 			if err != nil {
-				return fmt.Errorf("NewFrom(nested tree) failed: %v\n tree %s", err, show(want))
+				return fmt.Errorf("NewFrom(nested tree) under %s failed: %v\n tree %s", o, err, e.wantStr)
 			}
 			if s1, s2 := snapString(cfg, false, true), snapString(nested, false, true); s1 != s2 {
 				return fmt.Errorf("%s: the config differs from the one built from the nested tree\n--- dotted\n%s--- nested\n%s", desc, s1, s2)
 			}
 			// and feeding the generic view back in changes nothing
-			c2, err := newFrom(got, sepOpts)
+			c2, err := newFrom(got, opts)
 			if err != nil {
 				return fmt.Errorf("%s: NewFrom(unpacked result) failed: %v", desc, err)
 			}
-			d2, err := uc.Dump(c2, sepOpts...)
+			d2, err := uc.Dump(c2, opts...)
 			if err != nil {
 				return fmt.Errorf("%s: unpacking the second config failed: %v", desc, err)
 			}
-			if !splitEqual(d2, got) {
+			if !o.equal(d2, got) {
 				return fmt.Errorf("%s: feeding the unpacked result back in changes the generic view\n first  %s\n second %s", desc, show(got), show(d2))
 			}
 			if s1, s2 := snapString(cfg, false, true), snapString(c2, false, true); s1 != s2 {
@@ -564,58 +707,199 @@ func runFlat(c FlatCase, r *runlog.R) error {
 		}
 	}
 
-	r.NonTrivialIf(m.mustFail || m.shared > 0)
-	switch {
-	case m.mustFail:
-		r.Class("verdict: duplicate (" + m.conflict + ")")
-		r.ClassIf(m.throughPrim, "duplicate: a dotted key runs through a primitive (ErrExpectedObject accepted too)")
-		r.ClassIf(m.underShared, "duplicate: below a container that is given by two values")
-	case m.ambiguous:
-		r.Class("verdict: either (primitive vs nil/empty container)")
-	default:
-		r.Class("verdict: equal to the nested tree")
-		r.ClassIf(m.shared > 0, "container assembled from >=2 spellings")
-		r.ClassIf(m.contTwice > 0, "container given by two values, disjoint leaves: merged")
-		r.ClassIf(m.dottedNextToNested > 0, "dotted edge next to a nested sibling")
-	}
-	r.ClassIf(m.dotted == 0, "no dotted key")
-	r.ClassIf(m.idxSegs > 0, "index segment in a dotted key")
-	r.ClassIf(m.maxSegs >= 3, "dotted key with >=3 segments")
+	r.NonTrivialIf(e.mustFail() || m.shared > 0)
+	e.classes(r)
+	o.classes(r.Class)
 	r.ClassIf(capped, "insertion orders capped")
 	r.ClassIf(c.F.K == "list", "top-level list")
 	if c.Planted != "" {
 		r.Class("planted:" + c.Planted)
 	}
-	labels := make([]string, 0, len(used))
-	for k := range used {
-		labels = append(labels, k)
-	}
-	sort.Strings(labels)
-	for _, k := range labels {
-		switch k {
-		case "narrow int", "float32", "named primitive", "pointer to primitive", "nil *int", "map[string]interface{}", "[]interface{}":
-		default:
-			r.Class("repr:" + k)
-		}
-	}
+	usedClasses(r, used)
 	return nil
 }
 
+const flatRule = "an option set with a separator (37 separators: \".\", other single characters incl. every regexp and printf metacharacter, blank, comma, multi-character ones such as \"::\" \"->\" \"..\" \"%s\" \".*\", multi-byte runes; plus EnableNumKeys, MaxIdx 0/1/2/5/4000, StructTag with one of 4 tag names, EscapePath, options in either order) and a random tree T over keys {a,b,c,d,0,1} plus keys that hold parts of the separator or other separators and stay whole; every leaf path is cut into dotted groups independently (so any subset of the object edges, and of the list edges as index segments, is written dotted, next to nested spellings of sibling parts), objects are generic maps (1/2), structs (1/4: keys in tags, spread in their stated order over runs of tagged fields and inline members - inline maps of 4 kinds, inline struct, *struct, nested inline struct, interface{} field - so that inline members overlap sibling fields; all fields tagged under 4 tag names of which the selected one carries the keys) or any other representation (interface-keyed and typed maps, pointers, *Config); the spelled input F is the case, with its key insertion orders; run: F as stated plus every insertion order of the keys of every object in which two keys start with the same segment (all n! up to 4 keys, rotations and reversal above, at most 48 inputs; 8 repetitions each in replay mode) under the options must give the tree computed from F by an order-free, representation-free model (split keys at the separator, union, integer segments in [0,MaxIdx] are list indices except single-segment keys under EnableNumKeys), the same normalised hook fingerprint as NewFrom(nested tree), and be stable when fed back. Values are not compared when a node has names next to a list part under EnableNumKeys or beyond MaxIdx."
+
 var subFlat = runlog.Register(&runlog.Sub[FlatCase]{
 	Name: "flatten",
-	Rule: "random tree T over keys {a,b,c,d,0,1}; every leaf path is cut into dotted groups independently (so any subset of the object edges, and of the list edges as index segments, is written dotted, next to nested spellings of sibling parts), subtrees kept whole keep a mixed Go representation (struct tags, interface-keyed and typed maps, pointers, *Config); the spelled input F is the case, with its key insertion orders; run: F as stated plus every insertion order of the keys of every object in which two keys start with the same segment (all n! up to 4 keys, rotations and reversal above, at most 48 inputs; 8 repetitions each in replay mode) under PathSep(\".\") must give the tree computed from F by an order-free model (split keys, union, integer segments are list indices), the same normalised hook fingerprint as NewFrom(nested tree), and be stable when fed back. Non-trivial: some container is assembled from >=2 spellings (a dotted key through it plus a value, two dotted keys, or two values). Distinct: hash of F.",
+	Rule: flatRule + " Non-trivial: some container is assembled from >=2 spellings (a dotted key through it plus a value, two dotted keys, or two values). Distinct: hash of the case.",
 	Gen:  func(t *rapid.T) FlatCase { return genFlat(t, false) },
 	Run:  runFlat,
 })
 
 var subDup = runlog.Register(&runlog.Sub[FlatCase]{
 	Name: "duplicates",
-	Rule: "as flatten, plus one planted second definition of a path of T in a different spelling: primitive/primitive on a leaf, container over a primitive leaf, primitive over a container, container/container overlapping in a leaf, container/container with fresh (disjoint) leaves; the model decides from F alone: a primitive defined twice or a primitive and a container with a primitive below it at one path => NewFrom must fail with Reason()==ErrDuplicateKey (ErrExpectedObject also accepted iff a dotted key runs through a primitive given by another key), in every insertion order, each tried twice (8 times in replay mode) because a defective implementation depends on Go map iteration order; a nil second definition defines nothing; disjoint => must merge; primitive vs nil/empty container only => either. Non-trivial: a duplicate, or a container assembled from >=2 spellings. Distinct: hash of F.",
+	Rule: "as flatten (same option sets, separators and representations), plus one planted second definition of a path of T in a different spelling: primitive/primitive on a leaf, container over a primitive leaf, primitive over a container, container/container overlapping in a leaf, container/container with fresh (disjoint) leaves, or the same key a second time in one object (only structs can say that: two fields, or a field and a key of an inline member); the model decides from F alone: a primitive defined twice or a primitive and a container with a primitive below it at one path => NewFrom must fail with Reason()==ErrDuplicateKey (ErrExpectedObject also accepted iff a dotted key runs through a primitive given by another key), in every insertion order, each tried twice (8 times in replay mode) because a defective implementation depends on Go map iteration order; a nil second definition defines nothing; disjoint => must merge; primitive vs nil/empty container only => either. Non-trivial: a duplicate, or a container assembled from >=2 spellings. Distinct: hash of the case.",
 	Gen:  func(t *rapid.T) FlatCase { return genFlat(t, true) },
 	Run:  runFlat,
 })
 
-func TestFlatten(t *testing.T)    { subFlat.Check(t, 24000, 800000) }
-func TestDuplicates(t *testing.T) { subDup.Check(t, 20000, 500000) }
+func TestFlatten(t *testing.T)    { subFlat.Check(t, 20000, 800000) }
+func TestDuplicates(t *testing.T) { subDup.Check(t, 16000, 500000) }
+
+// ---------------------------------------------------------------------------
+// (d) one value under several option sets, one after the other
+
+// HistCase is one input (built once: the same Go value, the same types) that
+// is normalised under each of Steps in turn, and under the first one again at
+// the end.
+type HistCase struct {
+	F       *gen.Tree `json:"f"`
+	Sep     string    `json:"sep,omitempty"`     // the separator F was spelled with
+	Primary int       `json:"primary,omitempty"` // index into tagNames of the tag that carries the keys of F
+	Scheme  int       `json:"scheme,omitempty"`  // names under the other tags
+	Steps   []Step    `json:"steps"`
+	Planted string    `json:"planted,omitempty"`
+}
+
+type Step struct {
+	O     OptSet `json:"o"`
+	Merge bool   `json:"merge,omitempty"` // New() + Merge(input, options) instead of NewFrom(input, options)
+}
+
+func genHist(t *rapid.T) HistCase {
+	spell := genOptSet(t, 1)
+	fc := genFlatWith(t, spell, rapid.IntRange(0, 3).Draw(t, "plant") == 0, true)
+	c := HistCase{F: fc.F, Sep: spell.Sep, Planted: fc.Planted, Scheme: fc.Scheme, Primary: rapid.IntRange(0, 3).Draw(t, "primary")}
+	n := rapid.IntRange(2, 3).Draw(t, "nsteps")
+	for i := 0; i < n; i++ {
+		o := genOptSet(t, 0)
+		switch rapid.IntRange(0, 5).Draw(t, "stepsep") {
+		case 0:
+		case 1:
+			o.Sep = rapid.SampledFrom(separators).Draw(t, "othersep")
+		default:
+			o.Sep = spell.Sep
+		}
+		if o.Sep != "" && !strings.ContainsAny(o.Sep, "[]") && rapid.IntRange(0, 7).Draw(t, "esc") == 7 {
+			o.Esc = true
+		}
+		// the tag varies more often than in genOptSet
+		if rapid.Bool().Draw(t, "steptag") {
+			o.Tag = rapid.IntRange(0, 4).Draw(t, "tag")
+		}
+		c.Steps = append(c.Steps, Step{O: o, Merge: rapid.IntRange(0, 3).Draw(t, "merge") == 0})
+	}
+	return c
+}
+
+func runHist(c HistCase, r *runlog.R) error {
+	if c.F == nil || !c.F.IsCont() || len(c.Steps) == 0 || c.Primary < 0 || c.Primary > 3 || c.Scheme < 0 {
+		r.Discard()
+		return nil
+	}
+	for _, s := range c.Steps {
+		if !s.O.valid() {
+			r.Discard()
+			return nil
+		}
+	}
+	used := map[string]int{}
+	b := &builder{used: used, primary: c.Primary, scheme: c.Scheme, sep: c.Sep, noConfig: true}
+	var src interface{}
+	if err := uc.Safe("building the input", func() error {
+		var e error
+		src, e = b.build(c.F)
+		return e
+	}); err != nil {
+		return fmt.Errorf("building the input failed: %v", err)
+	}
+
+	steps := append(append([]Step(nil), c.Steps...), c.Steps[0])
+	type outcome struct {
+		applied bool
+		ok      bool
+		print   string // what the model expects: verdict and value
+		strict  string
+	}
+	outs := make([]outcome, len(steps))
+	sawStruct := false
+	var exps []*expectation
+	for si, st := range steps {
+		o := st.O
+		fv := viewUnder(c.F, c.Primary, o.tagIdx(), c.Scheme, c.Sep)
+		e := expectFor(fv, o)
+		if e.m.unclear {
+			// some key is not clearly split under this separator: the step is left out
+			continue
+		}
+		opts := o.options()
+		via := "NewFrom"
+		if st.Merge {
+			via = "New+Merge"
+		}
+		desc := lazy(func() string {
+			return fmt.Sprintf("step %d of %d: %s under %s of %s (keys as tag %q says: %s)", si+1, len(steps), via, o, showOrdered(c.F), tagNames[o.tagIdx()], showOrdered(fv))
+		})
+		var cfg *ucfg.Config
+		var err error
+		if st.Merge {
+			err = uc.Safe("Merge", func() error {
+				cfg = ucfg.New()
+				return cfg.Merge(src, opts...)
+			})
+		} else {
+			cfg, err = newFrom(src, opts)
+		}
+		if _, _, fail := e.verdict(desc, cfg, err); fail != nil {
+			return fail
+		}
+		outs[si] = outcome{applied: true, ok: err == nil, print: fmt.Sprintf("%v %v %s", e.mustFail(), e.comparable(), e.wantStr)}
+		if err == nil {
+			outs[si].strict = snapString(cfg, true, false)
+		}
+		if si < len(c.Steps) {
+			exps = append(exps, e)
+		}
+		if o.tagIdx() != c.Primary {
+			sawStruct = true
+		}
+	}
+	// the same input under the same options, before and after the other steps
+	first, last := outs[0], outs[len(outs)-1]
+	if first.applied && first.ok && last.ok && first.strict != last.strict {
+		return fmt.Errorf("%s under %s of %s gives a different config after the input has been normalised under other options\n--- first\n%s--- again\n%s", map[bool]string{false: "NewFrom", true: "New+Merge"}[c.Steps[0].Merge], c.Steps[0].O, showOrdered(c.F), first.strict, last.strict)
+	}
+
+	distinct := map[string]bool{}
+	tags, seps := map[int]bool{}, map[string]bool{}
+	applied := 0
+	for si := range c.Steps {
+		if outs[si].applied {
+			applied++
+			distinct[outs[si].print] = true
+			tags[c.Steps[si].O.tagIdx()] = true
+			seps[c.Steps[si].O.Sep] = true
+		}
+	}
+	r.NonTrivialIf(len(distinct) >= 2)
+	r.Class(fmt.Sprintf("steps applied: %d of %d", applied, len(c.Steps)))
+	r.ClassIf(len(distinct) >= 2, "the expected outcome differs between steps")
+	r.ClassIf(len(tags) >= 2, "the same types under >=2 struct tags")
+	r.ClassIf(len(tags) >= 2 && used["struct"]+used["*struct"] > 0 && sawStruct, "the same struct types under >=2 struct tags")
+	r.ClassIf(len(seps) >= 2, "the same input under >=2 separators (or none)")
+	for _, e := range exps {
+		e.classes(r)
+		e.o.classes(r.Class)
+	}
+	for si, st := range c.Steps {
+		r.ClassIf(st.Merge && outs[si].applied, "step through New+Merge")
+	}
+	if c.Planted != "" {
+		r.Class("planted:" + c.Planted)
+	}
+	usedClasses(r, used)
+	return nil
+}
+
+var subHist = runlog.Register(&runlog.Sub[HistCase]{
+	Name: "option-history",
+	Rule: "an input as in flatten/duplicates (spelled with one of the 37 separators; 1/4 with a planted second definition; no embedded *Config; objects are structs more often) is built ONCE as a Go value whose struct types carry names under 4 tag names (one carries the keys, the others names derived by 6 schemes: suffix, rotated, first field ignored, first field unnamed, inline members named instead of inlined, prefixed with the separator); it is normalised under 2-3 option sets in sequence (separator: the spelling one, another one, or none; struct tag: any of the 4 or none; EnableNumKeys, MaxIdx, EscapePath; through NewFrom or New+Merge) and under the first one again; every step must give what the model computes for the tree as it reads under that step's tag and options (same verdict rules as duplicates), and the first step repeated at the end must give a byte-identical hook fingerprint. A step whose separator does not split some key of the input clearly (empty segment, overlapping separators) is left out. Non-trivial: the expected outcome differs between at least two of the steps. Distinct: hash of the case.",
+	Gen:  genHist,
+	Run:  runHist,
+})
+
+func TestOptionHistory(t *testing.T) { subHist.Check(t, 16000, 500000) }
 
 func TestReplay(t *testing.T) { runlog.ReplayMain(t) }
